@@ -81,6 +81,10 @@ class Addr:
                 self.expiry = self.map.scheduler.callLater(delay,
                                                            self._expire)
 
+        elif self.expiry is not None and self.expiry.active():
+            # the mapping never expires any more
+            self.expiry.cancel()
+
     def _expire(self):
         """
         callback done via callLater
